@@ -4,6 +4,10 @@ import (
 	"bytes"
 	"encoding/json"
 	"fmt"
+	"go/ast"
+	"go/format"
+	"go/parser"
+	"go/token"
 	"math/big"
 	"math/rand"
 	"os"
@@ -73,21 +77,79 @@ var c16CommitteeWIFs = []string{
 }
 
 // c16Scratch copies go.mod, go.sum, common/ and contracts/ of the tree into a
-// fresh directory and replaces the value of common.Version by v.
-func c16Scratch(t testing.TB, v int64) string {
+// fresh directory and replaces the value of the constant common.Version by v.
+// The constant is found by NAME with go/ast in whichever file of package
+// common declares it; whatever expression defined it is replaced by the
+// literal (so the shape of the declaration does not matter).  An error means
+// "this tree cannot be patched" and is reported, not fatal.
+func c16Scratch(t testing.TB, v int64) (string, error) {
 	dst := t.TempDir()
 	for _, p := range []string{"go.mod", "go.sum", "common", "contracts"} {
 		out, err := exec.Command("cp", "-r", filepath.Join(RepoDir, p), filepath.Join(dst, p)).CombinedOutput()
-		require.NoError(t, err, string(out))
+		if err != nil {
+			return "", fmt.Errorf("copy %s: %v: %s", p, err, out)
+		}
 	}
-	p := filepath.Join(dst, "common", "version.go")
-	b, err := os.ReadFile(p)
-	require.NoError(t, err)
-	const old = "Version = major*1_000_000 + minor*1_000 + patch"
-	require.Equal(t, 1, strings.Count(string(b), old), "common/version.go changed shape")
-	s := strings.Replace(string(b), old, fmt.Sprintf("Version = %d", v), 1)
-	require.NoError(t, os.WriteFile(p, []byte(s), 0o644))
-	return dst
+	files, err := filepath.Glob(filepath.Join(dst, "common", "*.go"))
+	if err != nil {
+		return "", err
+	}
+	patched := 0
+	for _, f := range files {
+		if strings.HasSuffix(f, "_test.go") {
+			continue
+		}
+		fset := token.NewFileSet()
+		af, err := parser.ParseFile(fset, f, nil, parser.ParseComments)
+		if err != nil {
+			return "", fmt.Errorf("parse %s: %v", filepath.Base(f), err)
+		}
+		changed := false
+		for _, d := range af.Decls {
+			gd, ok := d.(*ast.GenDecl)
+			if !ok || gd.Tok != token.CONST {
+				continue
+			}
+			for _, sp := range gd.Specs {
+				vs := sp.(*ast.ValueSpec)
+				for i, n := range vs.Names {
+					if n.Name != "Version" {
+						continue
+					}
+					if i >= len(vs.Values) {
+						return "", fmt.Errorf("const Version in %s has no value expression of its own", filepath.Base(f))
+					}
+					var lit ast.Expr = &ast.BasicLit{Kind: token.INT, Value: fmt.Sprint(abs64(v))}
+					if v < 0 {
+						lit = &ast.UnaryExpr{Op: token.SUB, X: lit}
+					}
+					vs.Values[i] = lit
+					changed = true
+					patched++
+				}
+			}
+		}
+		if changed {
+			var buf bytes.Buffer
+			if err := format.Node(&buf, fset, af); err != nil {
+				return "", fmt.Errorf("print %s: %v", filepath.Base(f), err)
+			}
+			if err := os.WriteFile(f, buf.Bytes(), 0o644); err != nil {
+				return "", err
+			}
+		}
+	}
+	if patched != 1 {
+		return "", fmt.Errorf("expected exactly one const Version in package common, found %d", patched)
+	}
+	return dst, nil
+}
+
+func abs64(v int64) int64 {
+	if v < 0 {
+		return -v
+	}
+	return v
 }
 
 // c16Compile compiles contracts/<name> under root for the given deployer.
@@ -471,7 +533,7 @@ func shortFault(s string) string {
 
 // c16Run is the state of one TestC16 run.
 type c16Run struct {
-	t          *testing.T
+	t          testing.TB
 	w          *c16Writer
 	st         *Stats
 	msTable    map[string]string // Coq rows of the multisig table
@@ -520,7 +582,10 @@ func (r *c16Run) envCoq(height uint32, com [][]byte, des []c16Des, wit [][]byte)
 func (r *c16Run) gateSweep(v int64, withAlphabet bool, sets []string) {
 	t := r.t
 	r.roll(false)
-	root := c16Scratch(t, v)
+	root := r.scratchAt(v)
+	if root == "" {
+		return
+	}
 	g := newGateChain(t, v, root, withAlphabet)
 	sender := g.E.Validator.ScriptHash()
 	des := g.inForce(g.BC.BlockHeight() + 1) // no designation happens during this sweep
@@ -699,14 +764,23 @@ func (r *c16Run) writeCases(path string, acases []string, stdaccRows map[string]
 }
 
 func TestC16(t *testing.T) {
-	r := &c16Run{t: t, w: newC16Writer(), st: NewStats("C16"), msTable: map[string]string{}, h160: map[string][]byte{},
+	// assertions inside a scenario abort the scenario (recorded), never the Go test
+	tb := &c13TB{TB: t}
+	defer func() {
+		if x := recover(); x != nil { // outside any scenario (writing the cases file): a real failure
+			t.Fatalf("TestC16: %v", x)
+		}
+	}()
+	r := &c16Run{t: tb, w: newC16Writer(), st: NewStats("C16"), msTable: map[string]string{}, h160: map[string][]byte{},
 		distinct: map[string]bool{}, tree: map[string]*neotest.Contract{}, stdaccRows: map[string]string{}}
 	old, _ := filepath.Glob(filepath.Join(OutDir(), "cases_C16*.v"))
 	for _, f := range old {
 		_ = os.Remove(f)
 	}
 	prev, ver := int64(common.PrevVersion), int64(common.Version)
-	require.Less(t, prev, ver)
+	if prev >= ver {
+		r.st.AddViolation("C16_gate premise: PrevVersion < Version does not hold", map[string]any{"prev": prev, "version": ver})
+	}
 	versions := []int64{prev - 1, prev, prev + 1, 16999, 17000, ver - 1, ver, ver + 1, 0, -1}
 	if Tier() == "thorough" {
 		versions = append(versions, 15999, 16000, 17999, 18000, 18999, 19000, 1, 15000, 19500, 1000000)
@@ -716,13 +790,21 @@ func TestC16(t *testing.T) {
 		if Tier() != "thorough" && i%3 != 1 {
 			sets = []string{"none", "stranger", "committee5of6", "alphabet5of7", "alphabet4of7", "committee4of6"}
 		}
-		r.gateSweep(v, true, sets)
+		v := v
+		r.guard(fmt.Sprintf("gate sweep, deployed version %d", v), func() { r.gateSweep(v, true, sets) })
 	}
 	// a chain where nobody was designated as NeoFSAlphabet
-	r.gateSweep(prev, false, []string{"stranger", "committee4of6"})
+	r.guard("gate sweep without a designated Alphabet", func() {
+		v := prev
+		if r.scratchAt(prev) == "" {
+			v = ver // the unpatched tree still shows the gate (and ErrAlreadyUpdated)
+		}
+		r.gateSweep(v, false, []string{"stranger", "committee4of6"})
+	})
 	// corpus: the designation boundary (block N, N+1, N+2)
 	for _, variant := range []string{"same-block", "next-block", "two-blocks-later"} {
-		r.designationSweep(variant)
+		variant := variant
+		r.guard("designation boundary, "+variant, func() { r.designationSweep(variant) })
 	}
 	r.pools = newC16Pools()
 	r.partB()
@@ -1977,7 +2059,8 @@ func (r *c16Run) partB() {
 		coq[c.Name] = c.Coq
 	}
 	for _, l := range r.corpus() {
-		r.runLegacy(l, coq[l.Contract])
+		l := l
+		r.guard("migration corpus: "+l.Contract+" "+strings.Join(l.Shape, ","), func() { r.runLegacy(l, coq[l.Contract]) })
 	}
 	inRange := []int64{prev, prev + 1, 15999, 16000, 16999, 17000, 17999, 18000, 18999, 19000, 19500, ver - 1}
 	outRange := []int64{prev - 1, ver, ver + 1, 0, -1, 15000}
@@ -2002,7 +2085,9 @@ func (r *c16Run) partB() {
 			if rr.Intn(8) == 0 {
 				v = pick(rr, outRange)
 			}
-			r.runLegacy(r.gen(rr, pl.c, v), coq[pl.c])
+			c, seedSalt := pl.c, 100000*(ci+1)+i
+			r.guard(fmt.Sprintf("migration of a generated %s storage (version %d, generator salt %d)", c, v, seedSalt),
+				func() { r.runLegacy(r.gen(rr, c, v), coq[c]) })
 		}
 	}
 }
@@ -2189,7 +2274,8 @@ func (r *c16Run) partC() {
 		{Name: "bad-ir-key", Gas: 10_0000_0000, SN: 1, IR: 2, ProxyArg: px, NetmapArg: "hash", BadIRKey: true, Ballots: "absent"},
 	}
 	for _, ac := range cases {
-		r.runAlphabetGas(ac, &r.acases, r.stdaccRows)
+		ac := ac
+		r.guard("alphabet GAS distribution: "+ac.Name, func() { r.runAlphabetGas(ac, &r.acases, r.stdaccRows) })
 		if ac.Name == "2sn-1ir" {
 			r.st.Samples = append(r.st.Samples, ac)
 		}
@@ -2220,23 +2306,80 @@ type desCase struct {
 	History  []string `json:"history"`
 }
 
+// scratchAt returns the root of a tree whose contracts carry version v: the
+// tree itself for its own version, a patched scratch copy otherwise ("" when
+// the tree cannot be patched; the reason is recorded once in Stats.Extra).
 func (r *c16Run) scratchAt(v int64) string {
+	if v == int64(common.Version) {
+		return RepoDir
+	}
 	if r.scratch == nil {
 		r.scratch = map[int64]string{}
 	}
 	if d, ok := r.scratch[v]; ok {
 		return d
 	}
-	d := c16Scratch(r.t, v)
+	d, err := c16Scratch(r.t, v)
+	if err == nil {
+		// the patched constant must be what the compiled contract reports
+		err = r.probeVersion(d, v)
+	}
+	if err != nil {
+		d = ""
+		if _, seen := r.st.Extra["version_patching"]; !seen || r.st.Extra["version_patching"] == "go/ast" {
+			r.st.Extra["version_patching"] = "unavailable: " + err.Error()
+		}
+		r.st.OutcomeHistogram["gate/skipped-version-cannot-be-patched"]++
+	} else if _, seen := r.st.Extra["version_patching"]; !seen {
+		r.st.Extra["version_patching"] = "go/ast"
+	}
 	r.scratch[v] = d
 	return d
+}
+
+// probeVersion deploys the patched proxy contract on a throw-away chain and
+// reads version().
+func (r *c16Run) probeVersion(root string, v int64) (err error) {
+	defer func() {
+		if x := recover(); x != nil {
+			err = fmt.Errorf("patched tree does not build or deploy: %v", x)
+		}
+	}()
+	e := NewEnv(r.t)
+	c := c16Compile(r.t, e.E.Validator.ScriptHash(), root, "proxy")
+	e.E.DeployContract(r.t, c, nil)
+	if got := e.ReadInt(c.Hash, "version").Int64(); got != v {
+		return fmt.Errorf("patched contract reports version %d, wanted %d", got, v)
+	}
+	return nil
+}
+
+// guard runs one scenario; a failed assertion inside (r.t is a c13TB: it
+// panics instead of ending the Go test) is recorded as a violation with the
+// scenario's description, and the remaining scenarios still run.
+func (r *c16Run) guard(name string, f func()) {
+	defer func() {
+		if x := recover(); x != nil {
+			msg := fmt.Sprint(x)
+			if a, ok := x.(c13Abort); ok {
+				msg = a.msg
+			}
+			r.st.OutcomeHistogram["scenario-aborted"]++
+			r.st.AddViolation("C16 scenario could not be completed ("+name+"): "+msg, map[string]any{"scenario": name})
+		}
+	}()
+	f()
 }
 
 func (r *c16Run) designationSweep(variant string) {
 	t := r.t
 	r.roll(false)
 	prev := int64(common.PrevVersion)
-	g := newGateChain(t, prev, r.scratchAt(prev), true)
+	root := r.scratchAt(prev)
+	if root == "" {
+		return
+	}
+	g := newGateChain(t, prev, root, true)
 	rr := Rng(7700 + int64(len(variant)))
 	alphaA := g.alphabet
 	alphaB := append([]*wallet.Account{}, alphaA[:3]...)
